@@ -29,7 +29,7 @@ CLAIMED = {
         text="Coq theorems C06_band / C06_commission / C06_commission_stays / C06_sum / C06_mono / C06_ok_iff over the "
              "model of compute_swap for all 128-bit operands and all rates in [0,1]; the model is tied to "
              "haloswap::formulas::compute_swap by a differential correspondence run (boundary-directed + random) on "
-             "every invocation, and the property's decidable checker is also evaluated on the implementation's outputs.",
+             "every invocation, and the property's decidable checker is also evaluated on the implementation's outputs.  System level (session 4): C06_create_pair_sets_rate / C06_rate_never_changes / C06_rate_fixed_at_creation (Proofs/PairConfigProofs.v: a pair's configuration - assets, LP token, minimums, whitelist, factory and COMMISSION RATE - is fixed at creation and kept by every operation over any history; only recorded decimals change), C06_rate_example; mon_C06 also checks that a created pair describes the rate it was created with and judges the quote attached to a swap; world.deep_pool (offers as large as a 3*10^29 reserve).",
         design_ref="DESIGN.md section 8 (C06)"),
     "C08": dict(
         text="One Coq theorem per Uint256/Decimal256 operator of math.rs (exact_or_abort: succeeds exactly under the stated no-abort condition with "
@@ -45,7 +45,7 @@ CLAIMED = {
     "C12": dict(
         text="Coq theorems C12_reverse (offer = floor(x*y/(y-t)) - x with the grossed-up ask t inside its rounding bound), C12_reverse_never_above, "
              "C12_reverse_closed_form (exact abort set) over the model of compute_offer_amount; tied to the real function by the differential "
-             "correspondence.  PARTIAL: forward quote = execution and the router folds need the world model.",
+             "correspondence.  PARTIAL: forward quote = execution and the router folds need the world model.  world.deep_pool: the deepest pool provide_liquidity accepts, offers quoted then swapped up to the size of the reserve.",
         design_ref="DESIGN.md section 8 (C12)"),
     "C15": dict(
         text="Coq theorems C15_sound, C15_complete, C15_over_100, C15_no_abort, C15_absent over the model of assert_slippage_tolerance for all "
@@ -71,7 +71,7 @@ CLAIMED = {
     "C04": dict(
         text="Coq theorems C04_fn (r_i*a/T - r_i/10^18 - 1 < x_i <= r_i*a/T as cross-multiplied sandwich), C04_le_reserve, C04_total over the withdrawal arithmetic, and C04_structure / "
              "C04_sys over the world model (holder receives x_i from the pair, supply and the pair's LP balance fall by exactly a, no other account changes), C04_tx (the whole Send{withdraw} transaction pointwise on the ledger).  Tied to the real contracts by "
-             "ledger snapshot comparison and the withdrawal monitor on random and extreme histories.",
+             "ledger snapshot comparison and the withdrawal monitor on random and extreme histories.  mon_C04 also refuses any withdraw hook honoured from a token other than the pair's LP (world.counterfeit_lp: a cw20 naming the pair as its minter).",
         design_ref="DESIGN.md section 8 (C04)"),
     "C07": dict(
         text="Coq theorems over the world model: C07_frame / C07_frame_reachable (an operation changes no balance outside touched(o), in every world reachable by any history from a "
@@ -88,13 +88,13 @@ CLAIMED = {
     "C11": dict(
         text="Coq theorems C11_min_receive (success with minimum m => recipient's final-asset balance grew by >= m over the state after the entry transfer), C11_assert_message, "
              "C11_entry_native / C11_entry_cw20, C11_failed_unchanged over the world model.  Tied to the real router/pairs by 1..4-hop routes with minimums around the router's own quote, "
-             "perturbed pools, both entry points; ledger snapshot comparison and the minimum-receive monitor.",
+             "perturbed pools, both entry points; ledger snapshot comparison and the minimum-receive monitor.  Whole-transaction statements as the user sees them (session 4, Proofs/RouterTxProofs.v): C11_tx_native / C11_tx_native_total / C11_tx_native_other_recipient / C11_tx_cw20 (with w the world BEFORE the transaction: before + m <= after + what the recipient itself paid in the final asset), C11_tx_native_needs_distinct_coins (machine-checked reason for the distinct-coins hypothesis), C11_tx_example.",
         design_ref="DESIGN.md section 8 (C11)"),
     "C13": dict(
         text="Coq theorems C13_rejects_empty, C13_single_dangling_output, C13_only_last_hop_pays_recipient, C13_hop_swaps_whole_balance, C13_hop_delivers, C13_one_hop_quote, "
              "C13_two_hops_quote and C13_route_quote / C13_exec_route_quote (for a chain route of ANY number of hops through distinct pairs over distinct assets, entered with the router "
              "holding only the input, the recipient receives exactly the router's own quote and every route asset ends at zero in the router; induction over the hop list).  On the real "
-             "contracts: the quote is taken in the same state just before each route and compared by the monitor, with ledger snapshot comparison with the model.",
+             "contracts: the quote is taken in the same state just before each route and compared by the monitor, with ledger snapshot comparison with the model.  C13_route_quote_revisit / C13_exec_route_quote_revisit (session 4, Proofs/RouteCycleProofs.v): the same conclusion with the asset-distinctness hypotheses dropped - only 'hops use distinct pairs' remains, as in the property text (cycles and routes that pass through an asset twice), non-vacuity by C13_route_revisit_example.",
         design_ref="DESIGN.md section 8 (C13)"),
     "C14": dict(
         text="Coq theorems, one per guarded entry point (C14_factory_* , C14_pair_update_decimals, C14_pair_withdraw_hook, C14_pair_swap_hook, C14_router_single_hop, C14_router_assert_min), "
@@ -105,7 +105,7 @@ CLAIMED = {
         text="Coq theorems C16_sym, C16_inj (key equality => same unordered set over any prefix-free identifier universe), C16_refuted (KF-key-concat witness), "
              "C16_same_asset_rejected, C16_duplicate_rejected, C16_create_lookup and C16_hist (any history of creation attempts: created sets resolve in either order "
              "to their own record, all others to nothing) over the storage-level model of pair_key/PAIRS; tied to the real pair_key and PAIRS map on MockStorage.  "
-             "World level: C16_create_facts (owner, distinct assets, unregistered set, true decimals of registered natives / live cw20s, record = new pair's description), C16_world_duplicate_rejected, C16_world_lookup_either_order, C16_world_injective, C16_world_consistent, C16_lookup_self_description (after ANY history from a well-formed start, whatever the factory returns for a lookup is the pair's own description and the queried set) over the world model, tied to the real factory by creation histories.",
+             "World level: C16_create_facts (owner, distinct assets, unregistered set, true decimals of registered natives / live cw20s, record = new pair's description), C16_world_duplicate_rejected, C16_world_lookup_either_order, C16_world_injective, C16_world_consistent, C16_lookup_self_description (after ANY history from a well-formed start, whatever the factory returns for a lookup is the pair's own description and the queried set) over the world model, tied to the real factory by creation histories.  C16_pair_config_immutable / _history (session 4): an existing pair keeps its assets, LP token, minimums, whitelist, factory and rate over every operation.",
         design_ref="DESIGN.md section 8 (C16), section 9"),
     "C19": dict(
         text="Coq theorems C19_page, C19_walk (for every sorted registry with records under their own keys and every page size >= 1 or absent, the client walk's pages "
@@ -116,12 +116,12 @@ CLAIMED = {
     "C17": dict(
         text="Coq theorems C17_update (re-registration rewrites EVERY record of the unbounded registry in the denom's position and keeps RegOK, i.e. record = pair self-description; induction "
              "over the registry), C17_first_registration, C17_consistent_init / _create / _frame, C17_step / C17_history (record = pair self-description is preserved by EVERY operation, hence over every history; induction over run).  Tied to the real factory/pairs by creation+registration histories with 1..14 pairs and the "
-             "decimals monitor.  The defect found here was repaired in /repo (fix: C17).",
+             "decimals monitor.  The defect found here was repaired in /repo (fix: C17).  HISTORY level (session 4, Proofs/DecimalsHistProofs.v): C17_decimals_step / C17_decimals_history / C17_decimals_start (invariant DecOK: every pair records the TRUE decimals of both assets - the registry's current value for a native denom, the token's own for a cw20 - and every pair is registered; preserved by every operation not submitted by the factory address itself, holds in the harness's start), C17_registered_decimals_reach_every_pair (from the start, after any history, every factory record and the pair it names carry the registered decimals of each native asset), C17_decimals_example.",
         design_ref="DESIGN.md section 8 (C17), section 9"),
     "C18": dict(
         text="Coq theorems C18_u256_roundtrip, C18_render_canonical, C18_int_parse_sound/_complete, C18_dec_roundtrip, C18_dec_canonical, C18_parse_sound, C18_json_uint/_dec, "
              "C18_width_*, C18_decimal_* over the byte-level model of from_dec_str / Display / Decimal256::from_str / serde strings / limb conversions, for all values < 2^256 and all strings "
-             "(induction over digit lists).  Tied to the real types on the operand grid and on ALL strings over {0,1,9,.} up to length 5 (quick) / 7 (thorough) plus boundary numerals.",
+             "(induction over digit lists).  Tied to the real types on the operand grid and on ALL strings over {0,1,9,.} up to length 5 (quick) / 7 (thorough) plus boundary numerals.  JSON escapes are in the model since session 4 (Num/Text.v: unescape, json_decode_esc): C18_json_spelling_uint / C18_json_spelling_dec (every JSON spelling of a text - any of its characters written as \\u00XY - is read exactly as the plain spelling), C18_json_esc_uint / _dec and C18_json_respelled_uint / _dec (round trips through the escape-aware decoder, also after re-spelling the library's own output), C18_json_spelling_example.",
         design_ref="DESIGN.md section 8 (C18)"),
     "C20": dict(
         text="Coq theorems C20 / C20_handler / C20_refund_positive and C20_reachable (in every world reachable by any history from a well-formed start an entitled withdrawal succeeds; the "
